@@ -8,6 +8,7 @@ from props import c03
 ID = "C20"
 LEVEL = "proof"
 PROPS_FILE = "Props/C20.v"
+EXTRA_PROPS = ("Props/C20Tie.v",)
 CORR_VO = "Corr/C20.vo"
 REQUIRE = "From Curtsies Require Import Model.Base Model.Utf8 Model.Keys Corr.C20."
 CASE_TYPE = "C20.case"
